@@ -63,6 +63,7 @@ class Run(object):
         self.ws = None
         self.after_stop = None
         self.deadlock = None
+        self.companion = None
 
     def normed(self, drop=('poll',)):
         return [norm(e) for e in self.events if e.name not in drop]
@@ -90,6 +91,7 @@ def app_call(run, ws, name, *args, **kw):
                            and not (e[0] == 'sendall' and w.split_send and w.yield_hook is not None))
     rec['faulted'] = any(e[0] == 'sendall_fault' for e in w.log[before:])
     run.calls.append(rec)
+    _companion_steps(run, 1)       # ... and between two application calls
     return rec
 
 
@@ -115,7 +117,7 @@ class TablePolicy(object):
 
 def drive(world, url='ws://example.com/', ws_kwargs=None, connect_kwargs=None,
           policy=None, ws=None, stop_after=None, max_events=100000, headers=None,
-          session_class=None, pre_iter=None):
+          session_class=None, pre_iter=None, companion=None):
     """Iterate one connection to its end.  Never raises (apart from harness bugs)."""
     run = Run()
     run.world = world
@@ -128,6 +130,15 @@ def drive(world, url='ws://example.com/', ws_kwargs=None, connect_kwargs=None,
         run.ws = ws
         gen = ws.connect(session_class=session_class or simnet.SimSession, **ckw)
         run.gen = gen
+        if env.CASE_ENV.get('companion') is not None and companion is not False:
+            # one companion per case (not per connection): it simply lives on while the case makes its connections
+            from .companion import Companion
+            c = env.CASE_ENV.get('_companion_obj')
+            if c is None:
+                c = env.CASE_ENV['_companion_obj'] = Companion(env.CASE_ENV['companion'])
+                for _ in range(8):
+                    c.step()
+            run.companion = c
         if pre_iter is not None:
             # between connect() returning the iterator and its first next()
             pre_iter(run)
@@ -135,8 +146,18 @@ def drive(world, url='ws://example.com/', ws_kwargs=None, connect_kwargs=None,
     return run
 
 
+def _companion_steps(run, n):
+    """another WebSocket of the same process does something while the observed iterator is suspended"""
+    c = getattr(run, 'companion', None)
+    if c is None:
+        return
+    for _ in range(n):
+        c.step()
+
+
 def _iterate(run, gen, ws, policy, stop_after=None, max_events=100000):
     world = run.world
+    _companion_steps(run, 1)
     while True:
         try:
             ev = next(gen)
@@ -188,6 +209,7 @@ def _iterate(run, gen, ws, policy, stop_after=None, max_events=100000):
                 break
             finally:
                 world.in_app = False
+        _companion_steps(run, 1)
         if stop_after is not None and len(run.events) > stop_after:
             run.end = 'stopped'
             break
